@@ -813,8 +813,12 @@ func TestVerifC16Split(t *testing.T) {
 	}
 	plans = append(plans, c16Plan{p: c16Params{seed, 7, 4, 3, 1}, allCrit: true, reread: false})
 	// medium epochs: targets forcing 1..N pieces; several Subset nodes in the source; big sections
-	plans = append(plans, c16Plan{p: c16Params{seed, 30, 5, 0, 0}, nTarget: 30})
-	plans = append(plans, c16Plan{p: c16Params{seed, 40, 6, 7, 1}, nTarget: 24})
+	nt := 14
+	if zz.Thorough() {
+		nt = 30
+	}
+	plans = append(plans, c16Plan{p: c16Params{seed, 30, 5, 0, 0}, nTarget: nt})
+	plans = append(plans, c16Plan{p: c16Params{seed, 40, 6, 7, 1}, nTarget: nt - 4})
 	if zz.Thorough() {
 		for i := 0; i < 6; i++ {
 			plans = append(plans, c16Plan{p: c16Params{seed + uint64(100+i), 2 + rng.Intn(9), rng.Intn(5), rng.Intn(4), i % 2}, allCrit: true, reread: i < 3})
